@@ -579,7 +579,7 @@ func (n *node) RouteLinkPID(pid gen.PID, target gen.PID) error {
 			return gen.ErrProcessUnknown
 		}
 		lib.VerifPoint("link.add", pid.ID)
-		return n.targetManager.AddLink(pid, target)
+		return n.addLocalRelation(pid, target, false, gen.ErrProcessUnknown)
 	}
 
 	// remote target
@@ -640,7 +640,7 @@ func (n *node) RouteLinkProcessID(pid gen.PID, target gen.ProcessID) error {
 			return gen.ErrProcessUnknown
 		}
 		lib.VerifPoint("link.add", pid.ID)
-		return n.targetManager.AddLink(pid, target)
+		return n.addLocalRelation(pid, target, false, gen.ErrProcessUnknown)
 	}
 
 	// remote target
@@ -698,7 +698,7 @@ func (n *node) RouteLinkAlias(pid gen.PID, target gen.Alias) error {
 			return gen.ErrAliasUnknown
 		}
 		lib.VerifPoint("link.add", pid.ID)
-		return n.targetManager.AddLink(pid, target)
+		return n.addLocalRelation(pid, target, false, gen.ErrAliasUnknown)
 	}
 
 	// remote target
@@ -764,7 +764,7 @@ func (n *node) RouteLinkEvent(pid gen.PID, target gen.Event) ([]gen.MessageEvent
 
 		event := value.(*eventOwner)
 		lib.VerifPoint("link.add", pid.ID)
-		if err := n.targetManager.AddLink(pid, target); err != nil {
+		if err := n.addLocalRelation(pid, target, false, gen.ErrEventUnknown); err != nil {
 			return nil, err
 		}
 
@@ -882,7 +882,7 @@ func (n *node) RouteMonitorPID(pid gen.PID, target gen.PID) error {
 			}
 		}
 		lib.VerifPoint("monitor.add", pid.ID)
-		return n.targetManager.AddMonitor(pid, target)
+		return n.addLocalRelation(pid, target, true, gen.ErrProcessUnknown)
 	}
 
 	// remote target
@@ -946,7 +946,7 @@ func (n *node) RouteMonitorProcessID(pid gen.PID, target gen.ProcessID) error {
 			}
 		}
 		lib.VerifPoint("monitor.add", pid.ID)
-		return n.targetManager.AddMonitor(pid, target)
+		return n.addLocalRelation(pid, target, true, gen.ErrProcessUnknown)
 	}
 
 	// remote target
@@ -1006,7 +1006,7 @@ func (n *node) RouteMonitorAlias(pid gen.PID, target gen.Alias) error {
 			return gen.ErrAliasUnknown
 		}
 		lib.VerifPoint("monitor.add", pid.ID)
-		return n.targetManager.AddMonitor(pid, target)
+		return n.addLocalRelation(pid, target, true, gen.ErrAliasUnknown)
 	}
 
 	// remote target
@@ -1071,7 +1071,7 @@ func (n *node) RouteMonitorEvent(pid gen.PID, target gen.Event) ([]gen.MessageEv
 		}
 		event := value.(*eventOwner)
 		lib.VerifPoint("monitor.add", pid.ID)
-		if err := n.targetManager.AddMonitor(pid, target); err != nil {
+		if err := n.addLocalRelation(pid, target, true, gen.ErrEventUnknown); err != nil {
 			return nil, err
 		}
 
@@ -1168,6 +1168,50 @@ func (n *node) RouteDemonitorEvent(pid gen.PID, target gen.Event) error {
 	}
 
 	return n.targetManager.RemoveMonitor(pid, target)
+}
+
+// addLocalRelation creates a link (or monitor) on a local target and closes the
+// window between the caller's existence check and the insert: a target is removed
+// from its table before its relations are drained, so if the target is still
+// registered after the insert, the drain will see this relation. Otherwise the
+// relation is taken back and the request fails - unless the drain has already
+// consumed it, which means the requester has been notified.
+func (n *node) addLocalRelation(pid gen.PID, target any, monitor bool, gone error) error {
+	var err error
+	if monitor {
+		err = n.targetManager.AddMonitor(pid, target)
+	} else {
+		err = n.targetManager.AddLink(pid, target)
+	}
+	if err != nil {
+		return err
+	}
+
+	exist := false
+	switch t := target.(type) {
+	case gen.PID:
+		_, exist = n.processes.Load(t)
+	case gen.ProcessID:
+		_, exist = n.names.Load(t.Name)
+	case gen.Alias:
+		_, exist = n.aliases.Load(t)
+	case gen.Event:
+		_, exist = n.events.Load(t)
+	}
+	if exist {
+		return nil
+	}
+
+	if monitor {
+		err = n.targetManager.RemoveMonitor(pid, target)
+	} else {
+		err = n.targetManager.RemoveLink(pid, target)
+	}
+	if err == nil {
+		// nobody would ever notify the requester
+		return gone
+	}
+	return nil
 }
 
 func (n *node) RouteTerminatePID(target gen.PID, reason error) error {
